@@ -120,7 +120,33 @@ class ProtoModel:
                                            base=f"{base}.{f['name']}")
                     invs += inv2
                     st = st.heap_set(r, f["name"], c)
+                    # an absent sub-message reads as the default instance
+                    invs.append(V.Implies(Not(self.is_set(st, r, f["name"])), self.is_default(st, c)))
         return st, r, invs
+
+    def is_default(self, st: State, r: Ref) -> Any:
+        """message r has no field set (what protobuf hands out when an unset sub-message is read)"""
+        o = st.obj(r)
+        conj = []
+        for f in self.msgs[o.cls]["fields"]:
+            n = f["name"]
+            if f["repeated"]:
+                v = o.get(n)
+                if isinstance(v, Ref) and st.obj(v).kind == "list":
+                    for it in st.obj(v).get("items"):
+                        conj.append(V.seg_len(it.const) == 0 if isinstance(it, Seg) else False)
+            elif f["type"] == "message":
+                c = o.get(n)
+                if not f["oneof"]:
+                    conj.append(Not(o.get("$has:" + n)))
+                if isinstance(c, Ref):
+                    conj.append(self.is_default(st, c))
+            else:
+                conj.append(eng_equal(o.get(n), self.default(f)))
+        for oname in self.oneofs(o.cls):
+            w = o.get("$which:" + oname)
+            conj.append(w is None if (w is None or isinstance(w, str)) else w == 0)
+        return And(*conj)
 
     def _fresh_scalar(self, f: dict, name: str) -> tuple[Any, list]:
         t = f["type"]
@@ -198,6 +224,8 @@ class ProtoModel:
                 st, child, invs = self.new(eng, st, f["message"], sym=bool(o.get("$sym")), parent=Tup((r, attr)),
                                            base=f"{attr}")
                 st = st.assume(*invs).heap_set(r, attr, child)
+                if o.get("$sym"):
+                    st = st.assume(V.Implies(Not(self.is_set(st, r, attr)), self.is_default(st, child)))
             yield st, child
             return
         val = o.get(attr)
@@ -352,6 +380,7 @@ class ProtoModel:
         """callee may have written anything into message r: every field, oneof tag and presence bit becomes symbolic"""
         o = st.obj(r)
         name = o.cls
+        pending_children: list[str] = []
         for f in self.msgs[name]["fields"]:
             n = f["name"]
             if f["repeated"]:
@@ -368,6 +397,7 @@ class ProtoModel:
                     st = st.assume(*invs).heap_set(r, n, c)
                 if not f["oneof"]:
                     st = st.heap_set(r, "$has:" + n, V.fresh_bool(f"{base}.has_{n}"))
+                pending_children.append(n)
             else:
                 x, inv = self._fresh_scalar(f, f"{base}.{n}")
                 st = st.assume(*inv).heap_set(r, n, x)
@@ -375,6 +405,10 @@ class ProtoModel:
             tag = V.fresh_int(f"{base}.which_{oname}")
             st = st.assume(tag >= 0, tag <= len(members)).heap_set(r, "$which:" + oname, tag)
         st = st.heap_set(r, "$sym", True).heap_set(r, "$written", V.fresh_bool(f"{base}.written"))
+        for n in pending_children:
+            c = st.obj(r).get(n)
+            if isinstance(c, Ref):
+                st = st.assume(V.Implies(Not(self.is_set(st, r, n)), self.is_default(st, c)))
         return st
 
     # --------------------------------------------------------------- methods
@@ -468,6 +502,12 @@ class ProtoModel:
             else:
                 conj.append(eng.equal(st, va, vb))
         return And(*conj)
+
+
+def eng_equal(a: Any, b: Any) -> Any:
+    if isinstance(a, (bool, int, str, bytes)) and isinstance(b, (bool, int, str, bytes)):
+        return a == b
+    return to_z3(a) == to_z3(b)
 
 
 def install(eng: Any) -> ProtoModel:
